@@ -171,6 +171,59 @@ def max_collection(value):
 
 
 # ---------------------------------------------------------------------------
+# (b') a collection used as a dict KEY is part of the result as well
+# ---------------------------------------------------------------------------
+# A key shape is (wrappers, key kind, key size): a dict with one entry whose key
+# is a collection, wrapped in 0..2 one-element containers (list / dict value /
+# one-shot iterator).  key kind: 'tuple' (size elements), 'iter' (a one-shot
+# iterator of size elements), 'endless' (an endless source; size None).
+KEY_WRAPPERS = ('list', 'dict', 'iter')
+KEY_KINDS = ('tuple', 'iter', 'endless')
+
+
+def key_shapes(n, depth=2):
+    out = []
+    for d in range(depth + 1):
+        for wrappers in itertools.product(KEY_WRAPPERS, repeat=d):
+            for size in sizes_around(n):
+                out.append((wrappers, 'tuple', size))
+                out.append((wrappers, 'iter', size))
+            if n >= 0:                      # without a limit an endless key is simply endless
+                out.append((wrappers, 'endless', None))
+    return out
+
+
+def key_build(kshape, endless):
+    """Host document; `endless` is the instrumented source to use as the key."""
+    wrappers, kind, size = kshape
+    key = tuple(range(size)) if kind == 'tuple' else iter(range(size)) if kind == 'iter' else endless
+    doc = {key: 1}
+    for w in reversed(wrappers):
+        doc = [doc] if w == 'list' else {'z': doc} if w == 'dict' else iter([doc])
+    return doc
+
+
+def key_too_large(kshape, n):
+    """Every wrapper and the dict itself hold one element; the key holds `size`."""
+    wrappers, kind, size = kshape
+    if n < 0:
+        return False
+    return n < 1 or kind == 'endless' or size > n
+
+
+def key_image(kshape, tuples_to_lists):
+    """The finalised image, or None where it would need an unhashable key (a
+    list made from the tuple / iterator): that is C10's question."""
+    wrappers, kind, size = kshape
+    if kind != 'tuple' or tuples_to_lists:
+        return None
+    doc = {tuple(range(size)): 1}
+    for w in reversed(wrappers):
+        doc = (doc,) if w == 'list' else {'z': doc} if w == 'dict' else [doc]
+    return doc
+
+
+# ---------------------------------------------------------------------------
 # (c) growth chains
 # ---------------------------------------------------------------------------
 # step name -> (input kinds, output kind, YAQL template over E (the current
